@@ -36,6 +36,17 @@ Theorem C04_duplicate_fallback_refuted :
 Proof. exact C04_refuted_by_duplicate_fallback. Qed.
 Print Assumptions C04_duplicate_fallback_refuted.
 
+(* form c of the same finding (seen when RevokeCheckInterval = 0 joined the generator's configurations): no fault anywhere; the adoption
+   happens in one Encrypt of a cold factory and the NEXT Encrypt, at the same instant, uses the cached copy without any metastore call *)
+Theorem C04_cached_duplicate_fallback_refuted :
+  option_map (fun x => refused_ik_insert_at (t0 / sec + 100) (snd x)) (nth_error (fst (hrun (hinit t0) witness_dup_c)) 9) = Some true /\
+  nth_enc_parent 10 witness_dup_c = Some (t0 / sec + 100) /\
+  option_map (fun x => no_metastore_event (snd x)) (nth_error (fst (hrun (hinit t0) witness_dup_c)) 10) = Some true /\
+  row_parent (w_store (h_world (snd (hrun (hinit t0) witness_dup_c)))) ik_p (t0 / sec + 100) = Some (t0 / sec) /\
+  is_key_expired (t0 + 100 * sec + (sec - 1) - p_rci pol_rci0) (t0 / sec) (p_expire pol_rci0) = true.
+Proof. exact C04_refuted_by_cached_duplicate_fallback. Qed.
+Print Assumptions C04_cached_duplicate_fallback_refuted.
+
 (* clause 1 as a theorem over ALL histories: an unfaulted Encrypt that returns a record wrote it under an intermediate key that is
    not expired at the time of the operation - whichever way the key was obtained (cache hit, stale reload, metastore load,
    creation, duplicate fallback); policy sanity: ExpireKeyAfter >= CreateDatePrecision + 1 s.  (Envelope/Expiry.v) *)
